@@ -122,13 +122,20 @@ Theorem C14_flat_list : forall A B (f : A * A -> B) (grid : list (A * A)),
   chunk2 (flatten2 grid) = grid /\ map f (chunk2 (flatten2 grid)) = map f grid.
 Proof. exact (fun A B f grid => conj (chunk2_flatten2 grid) (flat_list_is_grid f grid)). Qed.
 
-(* transpose_vec: the literal loop nest is the matrix transpose on every square matrix and on single-column matrices.
-   The property's "any shape" is FALSE of the code (Findings/C14_transpose.v: 2x3 panics, 3x2 returns a non-transpose);
-   this is the theorem for the non-failing class. *)
-Theorem C14_transpose_partial : forall A (rows cols : nat) (v : list A),
-  length v = rows * cols -> 1 <= cols -> rows = cols \/ cols = 1 ->
-  exists w, transpose_vec v cols = Ok w /\ is_transpose rows cols v w.
+(* transpose_vec (the generated early return, ranges, read index and assertion of the out-of-place double loop): the matrix
+   transpose for EVERY shape rows x cols, including rows = 0 and cols = 0 (then the vector is empty and so is the result).
+   (F6, the former in-place square swap, was fixed in /repo fd4cfc7; its record is Findings/C14_transpose.v.) *)
+Theorem C14_transpose : forall A (rows cols : nat) (v : list A),
+  length v = rows * cols -> exists w, transpose_vec v cols = Ok w /\ is_transpose rows cols v w.
 Proof. exact (@transpose_correct). Qed.
+
+(* outside the matrix case: num_cols = 0 returns the input unchanged (no panic); a length that is not a multiple of num_cols
+   drops the trailing len mod num_cols elements and transposes the rest (no panic) *)
+Theorem C14_transpose_ragged : forall A (v : list A) (cols : nat),
+  transpose_vec v 0 = Ok v /\
+  (1 <= cols -> exists w, transpose_vec v cols = Ok w /\
+     is_transpose (length v / cols) cols (firstn (length v / cols * cols) v) w).
+Proof. exact (fun A v cols => conj (transpose_zero_cols v) (transpose_ragged v cols)). Qed.
 
 (* every JointSpectrum::*_range is `range.into_signal_idler_par_iterator().map(|(signal, idler)| point(..)).collect()` with the
    point function of the same name and the documented argument order (idler variants: swapped spectrum, swapped arguments);
@@ -148,7 +155,9 @@ Proof. exact (conj steps_value_Q2R steps2d_value_Q2R). Qed.
 (* non-vacuity *)
 Example C14_nonvacuous_space : ascending (fst (mk_space 1 2 3 1 2 3)) /\ nonzero_axes (mk_space 1 2 3 1 2 3).
 Proof. unfold ascending, nonzero_axes, mk_space; cbn. repeat split; lra. Qed.
-Example C14_nonvacuous_transpose : transpose_vec [1; 2; 3; 4] 2 = Ok [1; 3; 2; 4].
+Example C14_nonvacuous_transpose : transpose_vec [0; 1; 2; 3; 4; 5] 3 = Ok [0; 3; 1; 4; 2; 5] /\ is_transpose 2 3 [0; 1; 2; 3; 4; 5] [0; 3; 1; 4; 2; 5].
+Proof. split; [reflexivity|]. split; [reflexivity|]. intros [|[|r]] [|[|[|c]]] Hr Hc; try lia; reflexivity. Qed.
+Example C14_nonvacuous_ragged : transpose_vec [0; 1; 2; 3; 4; 5; 6] 3 = Ok [0; 3; 1; 4; 2; 5].
 Proof. reflexivity. Qed.
 Example C14_nonvacuous_spans : exists s : space R, span (fst s) = span (snd s).
 Proof. exists (mk_space 0 1 2 5 6 2). unfold span, mk_space; cbn. lra. Qed.
@@ -168,6 +177,7 @@ Print Assumptions C14_wavelength_frequency.
 Print Assumptions C14_sumdiff.
 Print Assumptions C14_conversions_compose.
 Print Assumptions C14_flat_list.
-Print Assumptions C14_transpose_partial.
+Print Assumptions C14_transpose.
+Print Assumptions C14_transpose_ragged.
 Print Assumptions C14_range_table.
 Print Assumptions C14_model_Q_is_R.
